@@ -137,6 +137,9 @@ class CallMixin:
             if not self.schema.has_field(v.cls, name):
                 raise EngineError(f"write to undeclared field {v.cls}.{name}")
             self.check_guarded_write(v, name, st)
+            if isinstance(val, VLoc):
+                _o, FT = self.schema.field(v.cls, name)
+                val = self.heapify(val, FT, st)
             st.write_field(v, name, val)
             return [("next", st, None)]
         if isinstance(v, VObj):
@@ -616,11 +619,14 @@ class CallMixin:
                     raise EngineError(f"missing argument {nm} for contract {c.key}")
                 env[nm] = d if isinstance(d, V) else self.spec_value(d, st, {})
             else:
-                env[nm] = self.coerce_arg(env[nm], T)
+                env[nm] = self.coerce_arg(env[nm], T, st)
         return env
 
-    def coerce_arg(self, v, T):
-        """An opaque value passed where the contract declares a scalar: read it as that scalar."""
+    def coerce_arg(self, v, T, st=None):
+        """An opaque value passed where the contract declares a scalar: read it as that scalar; a list / dict literal passed where a heap
+        container is declared: allocate it."""
+        if isinstance(v, VLoc) and st is not None and isinstance(T, (ty.Lst, ty.Map)):
+            return self.heapify(v, T, st)
         if isinstance(v, VObj):
             if isinstance(T, ty._Int):
                 return VInt(_unbox_int(v.t))
